@@ -145,6 +145,36 @@ fn verif_frame_datagram_roundtrip() {
     assert!(data[k] == payload[k]);
 }
 
+// announced size for LARGE payloads: any data length up to 20 000 bytes, with or without the
+// Length field: encoding_size() == type + [length] + data (RFC 9221 4). Size computation only.
+
+fn varint_len_large(v: u64) -> usize {
+    if v < 1 << 6 {
+        1
+    } else if v < 1 << 14 {
+        2
+    } else if v < 1 << 30 {
+        4
+    } else {
+        8
+    }
+}
+
+static ZEROS_LARGE: [u8; 20_000] = [0u8; 20_000];
+
+#[cfg_attr(kani, kani::proof)]
+#[cfg_attr(kani, kani::unwind(9))]
+fn verif_frame_datagram_announced_size() {
+    let is_last_frame: bool = kani::any();
+    let data_len: usize = kani::any();
+    kani::assume(data_len <= 20_000);
+    let frame: DatagramRef = Datagram { is_last_frame, data: &ZEROS_LARGE[..data_len] };
+    let size = frame.encoding_size();
+    assert!(size == 1 + if !is_last_frame { varint_len_large(data_len as u64) } else { 0 } + data_len);
+    kani::cover!(!is_last_frame && data_len == 63, "largest payload with a 1-byte length");
+    kani::cover!(!is_last_frame && data_len == 16384, "smallest payload with a 4-byte length");
+}
+
 // ---- generated by tools/fixup.py: native replay entry ----
 #[cfg(not(kani))]
 #[test]
@@ -152,5 +182,6 @@ fn verif_replay() {
     kani::replay(&[
         ("verif_frame_datagram_decode_diff", verif_frame_datagram_decode_diff),
         ("verif_frame_datagram_roundtrip", verif_frame_datagram_roundtrip),
+        ("verif_frame_datagram_announced_size", verif_frame_datagram_announced_size),
     ]);
 }
